@@ -7,3 +7,6 @@ cd "$(dirname "$0")"
 cd lean
 lake build PEval pevaldriver 2>&1 | grep -v "^✔\|^ℹ" | tail -20
 echo '{"prop":"ping","id":0}' | .lake/build/bin/pevaldriver
+# informational: are all generated decision tables / data tables present and non-empty on this tree? (never fails setup;
+# a table the translator could not follow makes its theorems vacuous, which the evidence also records as table:untranslatable)
+(lake build PEval.Properties.TablesPresent 2>&1 | grep -o "TABLES-PRESENT.*" | tail -1) || echo "TABLES-PRESENT: some table is missing on this tree (see lean/PEval/Properties/TablesPresent.lean)"
